@@ -48,6 +48,18 @@ func frameScenarios(only func(t *rm.Type) bool, depth int) []*hScenario {
 			out = append(out, &hScenario{Name: t.QName() + " key " + k, T: t, Msgs: []*rm.Value{z, d, lg}, Ops: ops, Depth: depth,
 				Caps: []int{capZero, capOwned, 0, 1, hdr, encLen(d) - 1, 4096}})
 		}
+		// one scenario with a body larger than 65,536 bytes (a length that does not fit 16 bits), where a body type allows it
+		for _, k := range tab.Order {
+			hv := valenum.WithKey(t, k, "D")
+			if !valenumHuge(hv) {
+				continue
+			}
+			if n := encLen(hv); n > 65536+64 {
+				out = append(out, &hScenario{Name: t.QName() + " huge body key " + k, T: t, Msgs: []*rm.Value{valenum.Stale(hv, 4)},
+					Ops: []hOp{{opENC, 0}, {opSKIP, 3}, {opJUNK, 0}}, Depth: 2, Caps: []int{capZero, capOwned}})
+				break
+			}
+		}
 		if t.Fields[t.DynField()].Nil == "skip" {
 			k0, k1 := tab.Order[0], tab.Order[len(tab.Order)-1]
 			n0 := valenum.Stale(valenum.NilDyn(valenum.WithKey(t, k0, "Z")), 0xFFFFFFFF)
@@ -123,7 +135,7 @@ func runC06(r *ev.Run, thorough bool) {
 	if thorough {
 		depth = 4
 	}
-	ops := []hOp{{opENC, 0}, {opENC, 1}, {opSKIP, 1}, {opSKIP, 3}, {opJUNK, 0}, {opRESET, 0}}
+	ops := []hOp{{opENC, 0}, {opENC, 1}, {opSKIP, 1}, {opSKIP, 3}, {opJUNK, 0}, {opJUNK, 4}, {opRESET, 0}}
 	var scs []*hScenario
 	for _, t := range bind.Types {
 		scs = append(scs, &hScenario{Name: t.QName(), T: t, Msgs: []*rm.Value{rm.Zero(t), valenum.Distinct(t)}, Ops: ops, Depth: depth, Caps: []int{capZero, capOwned, 1}})
@@ -150,7 +162,7 @@ func runC06(r *ev.Run, thorough bool) {
 		fd = 5
 	}
 	scs = append(scs, frameScenarios(func(t *rm.Type) bool { return true }, fd)...)
-	r.Rule = fmt.Sprintf("every type as a single-type scenario (messages Z, D; nil-extension variants; long variants) with ALL operation sequences of length <= %d over {ENC(m0),ENC(m1),SKIP(1),SKIP(3),JUNK,RESET} x 3 capacity classes, plus all frame scenarios of C04 at depth %d; oracle: after ENC the unread buffer == prior ++ EncodeRef(m), prior bytes identical; same object encoded again gives the same bytes; distinct = (scenario,capacity,sequence)", depth, fd)
+	r.Rule = fmt.Sprintf("every type as a single-type scenario (messages Z, D; nil-extension variants; long variants) with ALL operation sequences of length <= %d over {ENC(m0),ENC(m1),SKIP(1),SKIP(3),JUNK(1 byte),JUNK(5000 bytes),RESET} x 3 capacity classes, plus all frame scenarios of C04 at depth %d; oracle: after ENC the unread buffer == prior ++ EncodeRef(m), prior bytes identical; same object encoded again gives the same bytes; distinct = (scenario,capacity,sequence)", depth, fd)
 	r.Assume("model transition for ENC is: unread ++= EncodeRef(m)")
 	parScenarios(r, "C06", scs)
 	r.Sample("szse.NewOrder nil-fill: [ENC(m0) ENC(m0) SKIP(3)] (encoder materialises the extension, second encode must give the same bytes)")
@@ -259,4 +271,15 @@ func runC16(r *ev.Run, thorough bool) {
 	parScenarios(r, "C16", scs)
 	r.Sample("sample.StringPacket: [ENC(m0) DEC SCRIBBLE] over a caller-owned slice: decoded message unchanged")
 	r.Set("bound", map[string]any{"depth": depth})
+}
+
+// valenumHuge enlarges the body of a frame value in place; false if the body type cannot exceed 64 KiB.
+func valenumHuge(frame *rm.Value) bool {
+	body := frame.Fields[frame.Type.DynField()]
+	hv, ok := valenum.Huge(body.Type)
+	if !ok {
+		return false
+	}
+	*body = *hv
+	return true
 }
